@@ -3,6 +3,8 @@
 import json,sys,subprocess,os
 pid=sys.argv[1]
 k0=int(sys.argv[2]) if len(sys.argv)>2 else 1
+# VARIANT: later rounds ask for less central sites
+extra=(' Prefer sites that are NOT the most obvious one for this property: helper functions, code paths that handle errors, empty or boundary inputs, rarely used options, the interplay of two packages, or a second call of an operation on the same object; avoid simply weakening the single most central check.' if k0>=7 else '')
 wt=f"/tmp/seed-{pid}"
 if not os.path.exists(wt):
     subprocess.run(["git","-C","/repo","worktree","add","-q","--detach",wt,"HEAD"],check=True)
@@ -19,7 +21,7 @@ Here is a semantic property that the library is supposed to satisfy:
   Quantified over: {p['quantifier']['text']}
   Relevant files: {', '.join(p['anchors']['files'])}
 
-Your task: produce TWO different, independent changes to the library's non-test source code, each of which BREAKS this property while the code still compiles and the whole existing test suite still passes. Each change must be a realistic defect a developer could plausibly introduce (wrong variable or field, missing check on one path, swapped arguments, off-by-one / boundary condition, an error path that forgets cleanup, a condition that is slightly too weak or too strong) and must need something SPECIFIC to manifest: an unusual input, a particular multi-step sequence of operations, a particular interleaving or fault point, or two cooperating sites that each look fine alone. Do not produce changes that ordinary use or the existing tests would expose at once, and do not just delete large pieces of functionality.
+Your task: produce TWO different, independent changes to the library's non-test source code, each of which BREAKS this property while the code still compiles and the whole existing test suite still passes. Each change must be a realistic defect a developer could plausibly introduce (wrong variable or field, missing check on one path, swapped arguments, off-by-one / boundary condition, an error path that forgets cleanup, a condition that is slightly too weak or too strong) and must need something SPECIFIC to manifest: an unusual input, a particular multi-step sequence of operations, a particular interleaving or fault point, or two cooperating sites that each look fine alone. Do not produce changes that ordinary use or the existing tests would expose at once, and do not just delete large pieces of functionality.{extra}
 
 For each change k in {{{k0},{k0+1}}} deliver, under {wt}/SEED/k/:
   - patch.diff : `git diff` of the source change only (must apply to a clean checkout with `git apply`), NOT including the demonstration;
